@@ -80,8 +80,13 @@ func c18Build(e *enumCtx, ents []c18Entry, o c18Opt) (*table.Table, error) {
 	to := o.tableOptions()
 	b := table.NewTableBuilder(to)
 	defer b.Close()
-	for _, en := range ents {
-		b.Add(en.key, en.v, uint32(len(en.v.Value)))
+	for i, en := range ents {
+		// compactions add the delete markers / stale versions they must keep through AddStaleKey
+		if en.v.Meta&bitDelete != 0 && i > 0 {
+			b.AddStaleKey(en.key, en.v, uint32(len(en.v.Value)))
+		} else {
+			b.Add(en.key, en.v, uint32(len(en.v.Value)))
+		}
 	}
 	c18TableID++
 	if o.inmem {
